@@ -173,3 +173,33 @@ def runH (cfgS preds ops : String) : String :=
     runHist ps (built.map Prod.fst) ops
 
 end V.Drv
+
+namespace V.Drv
+
+/-- `F <cfg> <model> <pt> <hex>`: one prediction (and tag fill when compiled in and requested) under a build configuration -/
+def runF (cfgS mS ptS h : String) : String :=
+  let cfg := parseCfg cfgS
+  match parseModel mS, hexToStr? h with
+  | some m, some text =>
+    let wantTags := ptS == "1" && cfg.tagPred
+    match Predictor.new cfg m wantTags with
+    | .ok p =>
+      match Sentence.fromRaw text with
+      | .ok s =>
+        match p.predict 0 s with
+        | .ok s1 =>
+          let sc := showRes (fun xs => joinWith "." (xs.map toString)) "S" s1.boundaryScores
+          let b := "B" ++ (if s1.bounds.isEmpty then "-" else String.ofList (s1.bounds.map B.toChar))
+          if wantTags then
+            match p.predictTags s1 with
+            | .ok s2 => joinWith ";" [sc, b, "K" ++ toString s2.nTags, "G" ++ joinWith "." (s2.tags.map showTag)]
+            | _ => "panic"
+          else joinWith ";" [sc, b]
+        | _ => "panic"
+      | .err _ => "err:invalid_argument"
+      | _ => "panic"
+    | .err _ => "err:invalid_model"
+    | _ => "panic"
+  | _, _ => "bad-case"
+
+end V.Drv
